@@ -158,6 +158,10 @@ class ClassTable:
         imp = self.imports_of(module).get(name)
         if imp and imp[0] == "from":
             return self.lookup_in(imp[1], imp[2], _depth + 1)
+        # a module-level alias of a class: `AnnotatedMismatch = PostfixedMismatch` (bound once, to a plain name)
+        bound = [s_ for s_ in module.tree.body if isinstance(s_, ast.Assign) and any(isinstance(t, ast.Name) and t.id == name for t in s_.targets)]
+        if len(bound) == 1 and isinstance(bound[0].value, ast.Name) and bound[0].value.id != name:
+            return self.lookup(module, bound[0].value.id, _depth + 1)
         return None
 
     def lookup_function(self, module, name, _depth=0):
